@@ -39,7 +39,7 @@ def run(chk, prog):
         chk.inst("pairing:dealloc-followed-by-mark_gc_freed", "%s" % e.caller, ok,
                  detail="a GcPtr::dealloc of a linked object in %s is not followed by mark_gc_freed on every normal path" % e.caller,
                  loc="%s:%s" % (e.file, e.line), sample={"caller": e.caller, "dealloc_line": e.line})
-    chk.floor("linked-dealloc-sites", n_sites, 2)
+    chk.floor("linked-dealloc-sites", n_sites, 1)
 
     # -- subtraction inventory in metrics.rs --------------------------------------------------------
     subs = []
